@@ -29,7 +29,10 @@ MEMBER_NAMES = ["class", "def", "lambda", "none", "true", "false", "self", "othe
                 "methods", "persistent", "elseif", "otherwise", "parfor", "switch", "case", "default", "static", "const", "void", "bool", "string", "size", "date",
                 "time", "stream", "state", "version", "x" * 64, "a1B", "isinstance", "print", "object", "id", "input", "max", "min", "str", "bytes", "set", "map",
                 "numpy", "mro", "name", "hasFlags", "kValue", "typeid", "sizeof", "nullptr", "alignas", "concept", "requires", "coAwait", "export", "inline",
-                "mutable", "noexcept", "break", "continue", "goto", "in", "is", "as", "with", "del", "exec", "eval"]
+                "mutable", "noexcept", "break", "continue", "goto", "in", "is", "as", "with", "del", "exec", "eval",
+                # names that only become reserved words after snake_casing
+                "threadLocal", "notEq", "staticCast", "wcharT", "andEq", "orEq", "xorEq", "bitAnd", "bitOr", "constCast", "dynamicCast", "reinterpretCast",
+                "staticAssert", "char8T", "char16T", "char32T", "isNot", "notIn", "coReturn", "coYield"]
 TYPE_NAMES = ["Version", "Close", "Flush", "Date", "Time", "DateTime", "Size", "Optional", "Union", "Map", "List", "None", "True", "Type", "Enum", "Int32", "String",
               "Vector", "Array", "NDArray", "DynamicNDArray", "Object", "Exception", "Yardl", "Std", "Np", "Binary", "Ndjson", "Types", "Protocols", "BaseFlags",
               "ProtocolError", "UnionCase", "OutOfRangeEnum", "Any", "Generic", "Protocol", "HostProtoReader", "HostProtoWriterBase", "HostProtoReaderBase",
@@ -166,7 +169,8 @@ def check_outputs(ctx, root, pkgdir, home, what, sig_suffix, args=(), cpp=True, 
             ctx.count("cpp-tu-compiled")
             if rc != 0:
                 first = [l for l in err.split("\n") if "error" in l][:1]
-                ctx.violation("cpp-compile-failed:%s" % sig_suffix, "%s: generated %s does not compile: %s" % (what, os.path.relpath(s, cpp_dir), first), {"case_dir": root, "stderr": err[-2500:]})
+                vb = ":vector-bool" if "std::vector<bool" in err else ""
+                ctx.violation("cpp-compile-failed:%s%s" % (sig_suffix, vb), "%s: generated %s does not compile: %s" % (what, os.path.relpath(s, cpp_dir), first), {"case_dir": root, "stderr": err[-2500:]})
                 bad = True
                 break
     return "bad" if bad else "ok"
@@ -191,6 +195,8 @@ def run(ctx):
                  "ns": NAMESPACES}
     for pos, names in positions.items():
         sel = names if not quick else r.sample(names, min(len(names), 9 if pos in ("f1", "rec", "ns") else 5))
+        if quick and pos == "f1":
+            sel = sorted(set(sel) | {"threadLocal", "notEq", "staticCast"})
         for nm in sel:
             jobs.append(("name", pos, nm))
     for a, b in COLLIDING_PAIRS if not quick else COLLIDING_PAIRS[:5]:
